@@ -1095,6 +1095,28 @@ fn replay_with_fault_sub(name: &str, prefix: &[String], op: &str, k: usize, plen
 /// events the subscribers saw during a call, from its output line (` ev=a,b;a,b`)
 fn emitted(res: &str) -> String { res.split(" ev=").nth(1).map(|e| e.split(' ').next().unwrap_or("").replace(';', "")).unwrap_or_default() }
 
+/// A read-only call (`missing_nodes`, `create_proof`) replayed once per storage operation it issues with that operation
+/// failing: the call must answer with an error (C10: no storage error is swallowed, e.g. turned into "node missing").
+fn readonly_faults(c: &mut Ctx, lines: &[String], name: &str, line: &str) {
+    let mut probe_sim = Sim::new();
+    probe_sim.check_oracle = false;
+    for l in lines { probe_sim.exec(l); }
+    probe_sim.exec(&format!("faultnext {name} 999999999"));
+    probe_sim.exec(line);
+    let st = probe_sim.exec(&format!("faultstate {name}"));
+    let kinds: Vec<char> = st.split("kinds=").nth(1).unwrap_or("").chars().collect();
+    for k in 0..kinds.len().min(24) {
+        let (res, fst, _) = replay_with_fault_sub(name, lines, line, k, 0, false);
+        *c.out.stats.entry(format!("readonly_fault_at_{}", kinds[k])).or_insert(0) += 1;
+        *c.out.stats.entry("fault_points".into()).or_insert(0) += 1;
+        if !fst.starts_with("failed=true") { continue; }
+        let ctx = format!("`{}` with an I/O error at storage operation {k} ({}) of {name} || history: {}", crate::sim::trunc(line), kinds[k], crate::sim::trunc(&lines.join(" ; ")));
+        let line_no = c.sim.line;
+        if res.starts_with("ok") { c.out.failures.push(Failure { key: "fault-swallowed".into(), detail: format!("the call returned [{}] although a storage operation failed: {ctx}", crate::sim::trunc(&res)), line: line_no }); }
+        else if res.starts_with("panic") { c.out.failures.push(Failure { key: "fault-panic".into(), detail: format!("the call panicked: {ctx}"), line: line_no }); }
+    }
+}
+
 /// Storage faults during proof applications on a replica (C10 over "histories as in C02"): the writer holds a
 /// log, the replica applies honest proofs (upgrade, block, block + upgrade, in random request order, with
 /// growth rounds in between); each application is replayed once per storage operation of the replica with
@@ -1119,10 +1141,20 @@ pub fn fault_replica_histories(seed: u64, n: usize, events: bool) -> RunOut {
             let mut blk = "-".to_string();
             if up.is_none() || r.chance(3, 4) {
                 let cand: Vec<u64> = (0..horizon).filter(|i| !c.sim.h["R"].oracle.has(*i)).collect();
-                if !cand.is_empty() { let i = *r.pick(&cand); let o = go(&mut c, &mut lines, format!("missing R {i}")); blk = format!("{i}:{}", o.strip_prefix("ok ").and_then(|x| x.parse::<u64>().ok()).unwrap_or(0)); }
+                if !cand.is_empty() {
+                    let i = *r.pick(&cand);
+                    if !events { readonly_faults(&mut c, &lines, "R", &format!("missing R {i}")); }
+                    let o = go(&mut c, &mut lines, format!("missing R {i}")); blk = format!("{i}:{}", o.strip_prefix("ok ").and_then(|x| x.parse::<u64>().ok()).unwrap_or(0));
+                }
             }
             let ups = up.map(|(s, l)| format!("{s}:{l}")).unwrap_or("-".into());
             if blk == "-" && ups == "-" { continue; }
+            // the writer's side of the exchange under read faults; every other time with a seek, whose walk reads nodes it may miss
+            if !events {
+                let total: u64 = c.sim.h["W"].oracle.blocks.iter().take(horizon as usize).map(|b| b.len() as u64).sum();
+                let sk = if ups == "-" && total > 0 && r.chance(1, 2) { format!("{}", r.below(total)) } else { "-".to_string() };
+                readonly_faults(&mut c, &lines, "W", &format!("prove W {blk} - {sk} {ups}"));
+            }
             let o = go(&mut c, &mut lines, format!("prove W {blk} - - {ups}"));
             if !o.starts_with("ok fork") { continue; }
             let line = format!("applyp R {}", crate::sim::proof_full_txt(c.sim.proof.as_ref().unwrap()));
